@@ -515,15 +515,14 @@ example :
     s2.1.length = 2 ∧ s5.2 = SrcvOut.deliver b0 40 ∧ s6.2 = SrcvOut.deliver b1 40 ∧ s6.1 = [] := by decide
 
 
-/-! ## Layer B, composed: libcoap server ∘ lossy network ∘ libcoap client, Block2 (Model/BlockNet.lean)
+/-! ## Layer B, composed: libcoap sender ∘ lossy network ∘ libcoap receiver, Block2 and Block1 (Model/BlockNet.lean)
 
-FULL statement (not proved): `never_wrong_body` / `at_most_once_per_transfer` for the composed system in both
-directions, including everything the real endpoints do.  What is missing in the theorem below: the Block1 direction
-(the server's 2.31 responses are not part of `srvStep`'s output, so the client sender cannot be driven by them);
-responses the APPLICATION builds when a follow-up request finds no lg_xmit, and bodies that fit one message (the model
-generates no response there); the computation of `adlBody`'s parameters on the response path (hypothesis `B2ParOK`,
-satisfied by the request path: `first_block_genuine`); retransmission timers, message ids and tokens (abstracted:
-the schedule picks any datagram ever sent, any number of times, in any order). -/
+FULL statement (not proved): `never_wrong_body` / `at_most_once_per_transfer` for the composed system including
+everything the real endpoints do.  What is missing in the two theorems below: responses the APPLICATION builds when a
+follow-up Block2 request finds no lg_xmit, and bodies that fit one message (the models generate no message there); the
+computation of `adlBody`'s parameters on the response path (hypothesis `B2ParOK`, satisfied on the request path:
+`first_block_genuine`); per-block mode on the server; several transfers at once; retransmission timers, message ids and
+tokens (abstracted: the schedule picks any datagram ever sent, any number of times, in any order). -/
 
 /-- For EVERY schedule — any loss, duplication, delay, reordering of request and response datagrams, repeated GETs,
 time-outs of the server's lg_xmit and of the client's lg_crcv at any moment, any number of lg_xmit incarnations (each
@@ -576,6 +575,45 @@ example :
       .rspArrives 2, .reqArrives 3, .rspArrives 3, .reqArrives 4, .rspArrives 4]
     let s := evs.foldl (b2Step (exPar true)) {}
     s.outs = [.next 1 0, .restart 0, .next 1 0, .next 2 0, .body (exPar true).body 40] ∧ s.srvEtag = 3 := by
+  decide +kernel
+
+/-- The Block1 direction, composed (`b1Step`, Model/BlockNet.lean): libcoap client (`coap_add_data_large_request` for the
+first message, `coap_handle_response_send_block` for the others, early size renegotiation included) ∘ network ∘ libcoap
+server in single-body mode (`coap_handle_request_put_block` for one lg_srcv; 2.31 with the SZX of the request or the
+server's maximum for block 0; empty ACK; the application's answer; 4.08 / 4.00).  For EVERY schedule — any loss,
+duplication, delay, reordering of requests and responses, repeated PUTs, time-outs of the client's lg_xmit and of the
+server's lg_srcv at any moment, any server block-size limit — and with NO hypothesis on the datagrams: whatever the
+server hands to its application is exactly the client's body with its exact length.
+Invariant `B1Inv`: every request in flight is the slice for its NUM/SZX with the right More bit and Size1, in one of two
+sizes (the client's initial one — only for block 0 — or the one the transfer settles on); every 2.31 names the settled
+size; the lg_xmit is well formed (`XmitInv`) in one of the two sizes; the lg_srcv is consistent with the body (`SrcvInv`)
+and tracks it in the settled size.  So the hypotheses of `never_wrong_body_partial` (slice, SZX not below the tracked
+one) and of `client_block1_genuine_partial` (no larger size asked for) are discharged.
+Not in the model (see the section header): bodies that fit one message, two lg_srcvs at once (`request_tag_…`), per-block
+mode on the server, timers / message ids / tokens; body < 2^31 bytes. -/
+theorem never_wrong_body_block1_composed_partial (P : B1Par) (hP : B1ParOK P) (evs : List B1Event) :
+    ∀ o, o ∈ (evs.foldl (b1Step P) {}).outs → ∀ b l, o = SrcvOut.deliver b l → b = P.body ∧ l = P.body.length :=
+  (b1Run_inv P hP evs {} (b1_init_inv P)).outs
+
+/-- a concrete Block1 system: 200-byte body, the client would use 1024-byte blocks but asks for 64, the server allows 32 -/
+def exPar1 : B1Par :=
+  { body := (List.range 200).map (fun i => UInt8.ofNat i), maxSize := 1152, tokLen := 4, optBytes := 2, lastOpt := 11,
+    blk := some 2, maxBlkC := 0, rtagLen := 1, maxBlk := 1, room := 1000, cap := 4, junk := 0 }
+
+example : B1ParOK exPar1 :=
+  { len := (by show ((List.range 200).map (fun i => UInt8.ofNat i)).length < 2 ^ 31; simp),
+    ms := (by show 1152 < 2 ^ 62; decide) }
+
+/-- early size renegotiation over the composed system, with a duplicated 2.31 and a duplicated block: the first block
+(64 bytes) is recorded as two blocks of 32, the client goes on with block 2 of 32 bytes, one delivery at the end -/
+example :
+    let evs : List B1Event := [.appPut, .reqArrives 0, .rspArrives 0, .rspArrives 0, .reqArrives 1, .reqArrives 1,
+      .rspArrives 1, .reqArrives 2, .rspArrives 3, .reqArrives 3, .rspArrives 4, .reqArrives 4, .rspArrives 5, .reqArrives 5]
+    let s := evs.foldl (b1Step exPar1) {}
+    s.reqs.map (fun d => (d.num, d.m, d.szx, d.payload.length)) =
+      [(0, 1, 2, 64), (2, 1, 1, 32), (3, 1, 1, 32), (4, 1, 1, 32), (5, 1, 1, 32), (6, 0, 1, 8)] ∧
+    s.outs.getLast? = some (SrcvOut.deliver exPar1.body 200) ∧ s.srv = none ∧
+    (s.outs.filter (fun o => match o with | .deliver _ _ => true | _ => false)).length = 1 := by
   decide +kernel
 
 /-! non-vacuity: concrete instances of the hypotheses -/
